@@ -1286,6 +1286,13 @@ func (l *Listener) packetInput(data []byte, addr net.Addr) {
 		return
 	}
 
+	// a closed listener creates no sessions: nobody could accept or close them
+	select {
+	case <-l.die:
+		return
+	default:
+	}
+
 	// new session
 	s = newUDPSession(conv, l.dataShards, l.parityShards, l, l.conn, false, addr, l.block)
 	s.kcpInput(data)
@@ -1293,6 +1300,28 @@ func (l *Listener) packetInput(data []byte, addr net.Addr) {
 	l.sessions[addr.String()] = s
 	l.sessionLock.Unlock()
 	l.chAccepts <- s
+
+	// Close() may have run in between; it closes what it finds in the backlog,
+	// whatever arrives after that is closed here.
+	select {
+	case <-l.die:
+		l.closeUnaccepted()
+	default:
+	}
+}
+
+// closeUnaccepted closes the sessions which are still waiting in the accept backlog.
+// They have never been handed out by Accept, so nobody else can close them, and their
+// goroutine and update timer would stay forever.
+func (l *Listener) closeUnaccepted() {
+	for {
+		select {
+		case s := <-l.chAccepts:
+			s.Close()
+		default:
+			return
+		}
+	}
 }
 
 func (l *Listener) notifyReadError(err error) {
@@ -1412,6 +1441,8 @@ func (l *Listener) Close() error {
 	if !once {
 		return errors.WithStack(io.ErrClosedPipe)
 	}
+
+	l.closeUnaccepted()
 
 	if l.ownConn {
 		return l.conn.Close()
